@@ -65,7 +65,13 @@ def run_cfg(ctx, fx):
             for st in blk["s"]:
                 if st["k"] == "assign" and st["r"]["k"] == "agg" and st["r"].get("def") == "context::Context":
                     ctors.add(f["def"])
-    ctx.floor("R16.1", "functions touching Context.children", len(touch), 3)
+    # counted: add_child, register_child, send_to_children — a writer may also delegate to another writer (R16.2 checks how)
+    delegating = set()
+    for w in WRITERS:
+        wf = fx.fn(w)
+        if wf is not None and w not in touch and any((t.get("resolved") or t.get("callee")) in WRITERS for _, t in ctx.body(fx, wf).normal_calls()):
+            delegating.add(w)
+    ctx.floor("R16.1", "functions touching Context.children", len(touch) + len(delegating), 3)
     for fn_, locs in sorted(touch.items()):
         root = fx.fn(fn_).get("root", fn_)
         ctx.require(root in WRITERS, "R16.1", "access:" + fn_, "the child table is accessed outside add_child / register_child / send_to_children", fn=fn_, site=locs[0], detail={"sites": len(locs)})
@@ -93,6 +99,17 @@ def run_cfg(ctx, fx):
                     if s.get("in") == w:
                         stored.append(s["src"])
         ok = keys == [expect_m] and stored == ["addr::sender::Sender<%s>" % expect_m]
+        if not keys and stored in ([], ["addr::sender::Sender<%s>" % expect_m]):
+            # delegation: `self.register_child::<()>(child)` — the other writer instantiated at the expected message type,
+            # given this function's own child parameter
+            dels = [t for _, t in b.normal_calls() if (t.get("resolved") or t.get("callee")) in WRITERS and (t.get("resolved") or t.get("callee")) != w]
+            def m_arg(t_):
+                cal = fx.fn(t_.get("resolved") or t_.get("callee"))
+                gen = (cal or {}).get("generics") or []
+                ga = t_.get("gargs") or []
+                return ga[gen.index("M")] if "M" in gen and gen.index("M") < len(ga) else None
+            ok = len(dels) == 1 and m_arg(dels[0]) == expect_m and len(dels[0]["args"]) >= 2 and all(o.kind == "arg" for o in b.origins(dels[0]["args"][1]))
+            keys, stored = ["via " + (dels[0].get("callee") or "?") + "::<" + ",".join(dels[0].get("gargs") or []) + ">"] if dels else [], []
         ctx.require(ok, "R16.2", "store:" + w, "child must be stored as a strong Sender<%s> under TypeId::of::<%s>(): keys %s stored %s" % (expect_m, expect_m, keys, stored), fn=w, site=f["loc"], detail={"key": keys, "stored": stored})
     f = fx.fn("context::Context::<A>::send_to_children")
     if f is not None:
